@@ -124,22 +124,15 @@ def NoRename (tv : List Var) (v : Var) : Formula → Prop
   | .bin _ l r => NoRename tv v l ∧ NoRename tv v r
   | .quant _ vs f => v ∈ vs ∨ ((∀ x ∈ vs, x ∉ tv) ∧ NoRename tv v f)
 
-theorem renameLoop_id (n : Nat) (tv : List Var) (vs : List Var) (h : ∀ x ∈ vs, x ∉ tv)
-    (st : RenameState) :
-    vs.foldl (fun (st : RenameState) x =>
-        if x ∈ tv then
-          let fr := freshVar x st.taken
-          { body := Formula.substFuel n st.body x fr.toTerm, vars := st.vars ++ [fr],
-            taken := ins st.taken fr }
-        else { st with vars := st.vars ++ [x] }) st
-      = { st with vars := st.vars ++ vs } := by
-  induction vs generalizing st with
-  | nil => simp
+theorem renameLoop_id (sub : Formula → Var → GTerm → Formula) (tv : List Var) (vs : List Var)
+    (h : ∀ x ∈ vs, x ∉ tv) (body : Formula) (taken : List Var) :
+    renameLoop sub tv vs body taken = (body, vs) := by
+  induction vs generalizing taken with
+  | nil => rfl
   | cons x xs ih =>
     have hx : x ∉ tv := h x List.mem_cons_self
-    simp only [List.foldl_cons, hx, if_false]
+    simp only [renameLoop, hx, if_false]
     rw [ih (fun y hy => h y (List.mem_cons_of_mem _ hy))]
-    simp
 
 theorem bind_set_comm_all {vs : List Var} {v : Var} (hv : v ∉ vs) (a : Dom) (P : Asg → Prop)
     (ρ : Asg) :
@@ -236,8 +229,8 @@ theorem ht_substFuel_noRename (M : HTI) (v : Var) (s : GTerm) (hc : SortCompatib
       · rename_i hv
         rcases hn with hn | ⟨hvs, hn⟩
         · exact absurd hn hv
-        rw [renameLoop_id n s.vars vs hvs]
-        simp only [List.nil_append]
+        rw [renameLoop_id (Formula.substFuel n) s.vars vs hvs]
+        simp only
         rw [ht_quantify']
         have hd' : f.depth ≤ n := by simp [Formula.depth] at hd; omega
         cases q <;> simp only [ht]
